@@ -301,7 +301,7 @@ def fn_asserts(fn_regex, what, call_model=None, loop_bound=1, native=None, only_
             seen.add(key if verdict == "unsat" else (key, "bad"))
             o = {"id": "%s:%s:%s" % (f.name[-40:], bname, msg[:40]), "ok": verdict == "unsat", "functions": [f.name],
                  "detail": ("`%s` cannot fail on this path" % msg) if verdict == "unsat" else "wire values %s make `%s` fail in %s [%s]" % (mdl, msg, f.name, what),
-                 "cex": mdl, "path": p.trace, "where": "%s %s" % (f.name, bname)}
+                 "cex": mdl, "path": p.trace, "where": "%s %s" % (f.name, bname), "needs_native": True}
             if verdict == "sat" and native:
                 o["native"] = native(mdl)
             obs.append(o)
@@ -1049,7 +1049,7 @@ def mode_flags(ctx, mir, stats):
 # --------------------------------------------------------------------------
 # C07: potentially panicking sites on the NLA read path
 # --------------------------------------------------------------------------
-PANIC_CALLS = r"core::panicking::|begin_panic|::unwrap$|::expect$|as Index<|as IndexMut<|unwrap_failed|slice_index|panic_fmt|panic_display|::unwrap_or_else::<.*panic"
+PANIC_CALLS = r"core::panicking::|begin_panic|::unwrap$|::expect$|as Index<|as IndexMut<|unwrap_failed|slice_index|panic_fmt|panic_display|::unwrap_or_else::<.*panic|core::str::.*index|str::traits::"
 LAYOUT_LOOKUP = r"^<IndexMap<String, Box<dyn (Message|ASN1)>> as Index<&str>>::index$"
 
 
@@ -1138,6 +1138,13 @@ NLA_NATIVES = {
         let r = read_public_certificate(&[0x30, 0x00]);
         assert!(r.is_err());"""),
 }
+
+CORE_DATA_NATIVE = _native("verif_replay_core_data_name", "src/core/gcc.rs", """
+        // 15 ASCII characters then a 2-byte character: byte 16 is not a char boundary
+        let d = client_core_data(Some(ClientData { width: 800, height: 600, layout: KeyboardLayout::US, server_selected_protocol: 1, rdp_version: Version::RdpVersion5plus, name: "aaaaaaaaaaaaaaa\\u{e9}".to_string() }));
+        assert_eq!(cast!(DataType::Slice, d["clientName"]).unwrap().len(), 32);
+        let e = client_core_data(Some(ClientData { width: 800, height: 600, layout: KeyboardLayout::US, server_selected_protocol: 1, rdp_version: Version::RdpVersion5plus, name: "\\u{e9}".to_string() }));
+        assert_eq!(cast!(DataType::Slice, e["clientName"]).unwrap().len(), 32);""")
 
 NLA_TARGETS = [
     (r"^read_ts_server_challenge$", []),
